@@ -46,6 +46,9 @@ type cs struct {
 	// Transport: "" = the scheduler's unbounded in-memory link under p2p.NewConn; "pipe" = p2p.Pipe() (the
 	// repository's own synchronous in-memory transport, its io.Pipe rewritten onto the scheduler)
 	Transport string `json:"transport,omitempty"`
+	// Duplex: each side sends from one thread and receives in ANOTHER thread on the same Conn at the same time (the
+	// send path and the receive path of a connection have separate state)
+	Duplex bool `json:"duplex,omitempty"`
 	// U: unbounded exploration with sleep sets (every Mazurkiewicz trace x every read-size answer of the regime)
 	U bool `json:"unbounded,omitempty"`
 }
@@ -270,16 +273,30 @@ func system(k cs, w *world) func() {
 				default:
 					conn = p2p.NewConn(end)
 				}
-				s.sendErr = sendAll(conn, send)
-				if len(recv) > 0 && len(send) > 0 {
-					// both directions: make our data visible before waiting for the peer's
+				var kept []held
+				if k.Duplex && len(recv) > 0 && len(send) > 0 {
+					// the receiving half runs in a thread of its own while this thread sends
+					rdone := false
+					csched.GoNamed(csched.CurrentName()+"-recv", func() {
+						s.recvDiff = recvAll(conn, recv, &kept)
+						rdone = true
+					})
+					s.sendErr = sendAll(conn, send)
 					if err := conn.Flush(); err != nil && s.sendErr == nil {
 						s.sendErr = err
 					}
-				}
-				var kept []held
-				if s.sendErr == nil {
-					s.recvDiff = recvAll(conn, recv, &kept)
+					csched.SchedPoint("join", 0, func() bool { return rdone })
+				} else {
+					s.sendErr = sendAll(conn, send)
+					if len(recv) > 0 && len(send) > 0 {
+						// both directions: make our data visible before waiting for the peer's
+						if err := conn.Flush(); err != nil && s.sendErr == nil {
+							s.sendErr = err
+						}
+					}
+					if s.sendErr == nil {
+						s.recvDiff = recvAll(conn, recv, &kept)
+					}
 				}
 				s.eofOK = true
 				if len(send) == 0 {
@@ -527,6 +544,13 @@ func work(ctx *runner.Ctx) {
 			}
 		}
 	}
+	// 3a. duplex use: on each side one thread sends while another receives on the same Conn
+	for _, x := range []Op{{K: "w"}, {K: "d", N: 17}} {
+		for _, y := range []Op{{K: "b"}, {K: "l"}} {
+			cases = append(cases, cs{A: []Op{x, flush, y}, B: []Op{y, x}, Regime: "all", P: 1, F: 3, Duplex: true})
+		}
+	}
+	cases = append(cases, cs{A: []Op{{K: "b"}, {K: "b"}, {K: "h"}}, B: []Op{{K: "h"}, {K: "b"}}, Regime: "all", P: 2, F: 2, Duplex: true})
 	// 3. both directions at once
 	for i, x := range small {
 		for j, y := range small {
